@@ -516,9 +516,13 @@ func (s *sim) doAdmin(st step) {
 	if s.sc.Cfg.Token != "" {
 		req.Header.Set("Authorization", "Bearer "+s.sc.Cfg.Token)
 	}
+	pre := []any{}
+	for _, b := range s.lb.ListBackends() {
+		pre = append(pre, map[string]any{"name": b.Name, "addr": b.Address, "w": b.Weight, "healthy": b.Healthy})
+	}
 	rec := httptest.NewRecorder()
 	s.admin.ServeHTTP(rec, req)
-	ev := map[string]any{"ev": "admin", "op": st.Op, "name": st.Name, "addr": st.Addr, "w": st.W, "s": st.S, "status": rec.Code}
+	ev := map[string]any{"ev": "admin", "pre": pre, "op": st.Op, "name": st.Name, "addr": st.Addr, "w": st.W, "s": st.S, "status": rec.Code}
 	if st.Op == "list" {
 		var l []map[string]any
 		_ = json.Unmarshal(rec.Body.Bytes(), &l)
